@@ -295,6 +295,15 @@ func famC19(g *Gen, o *Out, n int, thorough bool) {
 				res = "r=ok cids=" + cidLines(so)
 			}
 			o.Line("cli op=list "+desc, res)
+			// the same listing into a file (the optional second argument)
+			g.prepOut(out)
+			_, _, err = runCar(nil, dir, "list", in, out)
+			res = "r=err"
+			if err == nil {
+				b, _ := os.ReadFile(out)
+				res = "r=ok cids=" + cidLines(string(b))
+			}
+			o.Line("cli op=list via=file "+desc, res)
 		}
 		// --- get-block: a present key, the same hash under another codec, an absent key
 		{
